@@ -23,28 +23,33 @@ Proof.
   destruct (he && (e =? 0)); [auto|]. rewrite trunc_mod by lia; auto.
 Qed.
 
-Lemma reg_refines w he hr rv h : 0 <= w -> h <> [] ->
-  cell_q (run (reg_m w he hr rv) (cell0 rv) h) = run (reg_spec w he hr rv) (reg_spec_init w rv) h.
+Definition reg_rel_q (w : Z) (c : cell) (s : Z) : Prop := reg_rel w c s /\ cell_q c = s.
+
+(* from construction on (also for the empty history: before the first edge q = reset_value mod 2^w) *)
+Lemma reg_refines w he hr rv h : 0 <= w ->
+  cell_q (run (reg_m w he hr rv) (cell_init w rv) h) = run (reg_spec w he hr rv) (reg_spec_init w rv) h.
 Proof.
-  intros Hw Hne.
-  apply (run_sim_post (reg_m w he hr rv) (reg_spec w he hr rv) (reg_rel w) (fun c s => cell_q c = s) (fun _ => True)).
-  - intros; apply reg_step_sim; auto.
-  - apply Forall_True.
-  - exact Hne.
-  - unfold reg_rel, reg_spec_init. cbn. apply trunc_mod; lia.
+  intros Hw.
+  apply (run_sim (reg_m w he hr rv) (reg_spec w he hr rv) (reg_rel_q w)).
+  - intros c s i [H _]. split; apply reg_step_sim; auto.
+  - unfold reg_rel_q, reg_rel, reg_spec_init, cell_init, cell_q, cell_value. cbn [fst snd Reg_s_value].
+    change (Wire_put w rv) with (trunc w rv). split; apply trunc_mod; lia.
 Qed.
 
-(* the attribute follows the reference machine from power-up on (also before the first edge) ... *)
+(* the (unmasked) attribute follows the reference machine too *)
 Lemma reg_value_refines w he hr rv h : 0 <= w ->
-  cell_value (run (reg_m w he hr rv) (cell0 rv) h) mod 2 ^ w = run (reg_spec w he hr rv) (reg_spec_init w rv) h.
+  cell_value (run (reg_m w he hr rv) (cell_init w rv) h) mod 2 ^ w = run (reg_spec w he hr rv) (reg_spec_init w rv) h.
 Proof.
   intros Hw. rewrite <- trunc_mod by lia.
-  apply (run_sim (reg_m w he hr rv) (reg_spec w he hr rv) (reg_rel w)).
-  - intros; apply reg_step_sim; auto.
-  - unfold reg_rel, reg_spec_init. cbn. apply trunc_mod; lia.
+  apply (run_sim (reg_m w he hr rv) (reg_spec w he hr rv) (reg_rel_q w)).
+  - intros c s i [H _]. split; apply reg_step_sim; auto.
+  - unfold reg_rel_q, reg_rel, reg_spec_init, cell_init, cell_q, cell_value. cbn [fst snd Reg_s_value].
+    change (Wire_put w rv) with (trunc w rv). split; apply trunc_mod; lia.
 Qed.
-(* ... but the q WIRE is 0 until the first edge, whatever reset_value is *)
-Lemma reg_powerup_q rv : cell_q (cell0 rv) = 0.
+(* the power-up clause on its own, and the zero-reset cell used by all structural blocks *)
+Lemma reg_powerup_q w rv : 0 <= w -> cell_q (cell_init w rv) = rv mod 2 ^ w.
+Proof. intros Hw. unfold cell_init, cell_q. cbn [snd]. change (Wire_put w rv) with (trunc w rv). apply trunc_mod; lia. Qed.
+Lemma cell_init_zero w : cell_init w 0 = cell_zero.
 Proof. reflexivity. Qed.
 
 (* ------------------------------------------------------------------ TReg *)
@@ -68,7 +73,7 @@ Proof.
 Qed.
 
 Lemma treg_refines wq he hr h : 1 <= wq ->
-  cell_q (run (treg_m wq he hr) (cell0 0) h) = run (treg_spec he hr) 0 h.
+  cell_q (run (treg_m wq he hr) cell_zero h) = run (treg_spec he hr) 0 h.
 Proof.
   intros Hw. apply (run_sim (treg_m wq he hr) (treg_spec he hr) treg_rel).
   - intros; apply treg_step_sim; auto.
@@ -124,13 +129,13 @@ Proof. intros [-> | ->]; unfold edge_step; rewrite reg_edge_eq; reflexivity. Qed
    before the first edge the stored sample is 0 *)
 Lemma edge_detector_refines dir h a_last a :
   Forall (fun x => x = 0 \/ x = 1) h -> (a_last = 0 \/ a_last = 1) -> (a = 0 \/ a = 1) ->
-  edge_out dir 1 (run edge_step (cell0 0) (h ++ [a_last])) a = edge_spec (dir_kind dir) a_last a.
+  edge_out dir 1 (run edge_step cell_zero (h ++ [a_last])) a = edge_spec (dir_kind dir) a_last a.
 Proof.
   intros Hh Hl Ha. rewrite run_snoc.
-  pose proof (edge_step_q (run edge_step (cell0 0) h) a_last Hl) as Hq.
+  pose proof (edge_step_q (run edge_step cell_zero h) a_last Hl) as Hq.
   rewrite edge_out_eq; auto. - rewrite Hq. reflexivity. - rewrite Hq. exact Hl.
 Qed.
-Lemma edge_detector_powerup dir a : (a = 0 \/ a = 1) -> edge_out dir 1 (cell0 0) a = edge_spec (dir_kind dir) 0 a.
+Lemma edge_detector_powerup dir a : (a = 0 \/ a = 1) -> edge_out dir 1 cell_zero a = edge_spec (dir_kind dir) 0 a.
 Proof. intros Ha. apply edge_out_eq; auto. Qed.
 
 (* ------------------------------------------------------------------ AutoReset *)
